@@ -66,6 +66,9 @@ type Store struct {
 	RV    int64
 	UIDs  int64
 	Clock int64
+	// Admission: per object key, how admission answers writes and dry runs for it right now
+	// ("noreason", "internal", "unavailable", "toomany"); absent = normal
+	Admission map[Key]string
 }
 
 // NewStore returns an empty store with the given kinds registered.
@@ -80,6 +83,12 @@ func NewStore(kinds []KindInfo) *Store {
 // Clone deep-copies the store (kinds are shared: they are immutable).
 func (s *Store) Clone() *Store {
 	n := &Store{Objs: make(map[Key]*Obj, len(s.Objs)), Kinds: s.Kinds, Incs: make(map[Key]int, len(s.Incs)), RV: s.RV, UIDs: s.UIDs, Clock: s.Clock}
+	if len(s.Admission) > 0 {
+		n.Admission = make(map[Key]string, len(s.Admission))
+		for k, v := range s.Admission {
+			n.Admission[k] = v
+		}
+	}
 	for k, o := range s.Objs {
 		n.Objs[k] = o.clone()
 	}
